@@ -1,22 +1,28 @@
-(* C09/Refuted.v -- full statements that the faithful model (= the code) violates, with witnesses. *)
+(* C09/Refuted.v -- regression facts about behaviour that has been fixed, and notes on what lies outside the
+   theorems' domains.  No open finding remains for C09. *)
 From GocqlV Require Import Lib.Base Gen.Consts C09.Model C09.Spec.
 
-(* F-C09-1 / known finding murmur3-min-token-not-normalized.
-   A 16-byte key (the uuid 653cbefb-85ec-3111-b4e3-8fa9bc7cbcae) whose Murmur3 h1 is exactly -2^63, obtained
+(* F-C09-1 / finding murmur3-min-token-not-normalized -- FIXED in token.go (murmur3Partitioner.Hash now maps
+   math.MinInt64 to math.MaxInt64).  Kept as a regression fact about the PRE-FIX function:
+   a 16-byte key (the uuid 653cbefb-85ec-3111-b4e3-8fa9bc7cbcae) whose Murmur3 h1 is exactly -2^63, obtained
    by running the one-block hash backwards.  Cassandra's Murmur3Partitioner.normalize maps it to
-   Long.MAX_VALUE; murmur3Partitioner.Hash returns the raw value. *)
+   Long.MAX_VALUE; the old murmur3Partitioner.Hash returned the raw value. *)
 Definition min_witness : list Z := [101; 60; 190; 251; 133; 236; 49; 17; 180; 227; 143; 169; 188; 124; 188; 174].
 
-Theorem murmur_min_value_refuted :
-  exists key, wf_bytes key /\ key <> [] /\ murmur3_token key <> cassandra_murmur3_token key.
+(* murmur3Partitioner.Hash before the fix: murmur3Token(murmur.Murmur3H1(partitionKey)) *)
+Definition murmur3_token_prefix (key : list Z) : Z := murmur3_h1 key.
+
+Theorem murmur_min_value_prefix_refuted :
+  exists key, wf_bytes key /\ key <> [] /\ murmur3_token_prefix key <> cassandra_murmur3_token key.
 Proof.
   exists min_witness. split; [apply wf_bytesb_spec; reflexivity|]. split; [discriminate|].
   vm_compute. discriminate.
 Qed.
 
 Lemma murmur_min_value_witness_values :
-  murmur3_token min_witness = - 2 ^ 63 /\ cassandra_murmur3_token min_witness = 2 ^ 63 - 1.
-Proof. vm_compute. split; reflexivity. Qed.
+  murmur3_token_prefix min_witness = - 2 ^ 63 /\ cassandra_murmur3_token min_witness = 2 ^ 63 - 1
+  /\ murmur3_token min_witness = 2 ^ 63 - 1.
+Proof. vm_compute. repeat split; reflexivity. Qed.
 
 (* Not a finding, recorded for completeness: for the EMPTY key Cassandra's partitioners return their MINIMUM
    token (Murmur3: Long.MIN_VALUE) without hashing, the driver hashes it (h1("") = 0).  Cassandra rejects
